@@ -7,6 +7,7 @@ import (
 	"math"
 	"sort"
 	"strings"
+	"sync/atomic"
 
 	"golang.org/x/tools/go/ssa"
 )
@@ -202,6 +203,7 @@ func (in *Interp) branch(c *Term) bool {
 	}
 	if vT == Unknown || vF == Unknown {
 		in.res.FeasUnknown++
+		atomic.AddInt64(&in.cfg.unknownSeen, 1)
 	}
 	in.pushSibling(Dec{V: 0, K: "br"})
 	in.record(Dec{V: 1, K: "br"})
@@ -380,15 +382,35 @@ func (in *Interp) assert(tag string, c *Term) {
 		in.crossCheck(tag, nc)
 		return
 	case Unknown:
+		// portfolio: the other back ends may decide what the first could not
+		for _, xs := range in.xsolvers {
+			xv, xm := xs.Check("assert-fallback", in.path.pc, []*Term{nc}, in.inputTerms())
+			if xv == Unsat {
+				st.Unsat++
+				in.setFact(c, true)
+				return
+			}
+			if xv == Sat {
+				st.Sat++
+				atomic.AddInt64(&in.cfg.violationsSeen, 1)
+				in.recordViolation(tag, xm, "")
+				return
+			}
+		}
 		st.Unknown++
+		atomic.AddInt64(&in.cfg.unknownSeen, 1)
 		in.res.Inconclusive = append(in.res.Inconclusive, fmt.Sprintf("assert %s: solver answered unknown", tag))
 		in.assume(c)
 		return
 	}
 	st.Sat++
-	// try a presentable model (small integers) first
-	if pm := in.presentableModel(nc); pm != nil {
-		model = pm
+	atomic.AddInt64(&in.cfg.violationsSeen, 1)
+	// try a presentable model (small integers) first - for the first violations of a run only:
+	// the search costs solver time and the later ones are alternates of the same group
+	if atomic.LoadInt64(&in.cfg.violationsSeen) <= 48 {
+		if pm := in.presentableModel(nc); pm != nil {
+			model = pm
+		}
 	}
 	in.recordViolation(tag, model, "")
 	// execution continues with the path condition unchanged, so that later assertions are
